@@ -155,3 +155,65 @@ def crc24():
 
 def scenarios():
     return [crc24()]
+
+
+def armor_writer(nlines):
+    """Armorable.__str__ for a payload whose base64 text needs exactly `nlines` lines of 64 characters (bounded: nlines small;
+    octets, headers and block label symbolic)"""
+    label = 'C10/Armorable.__str__[%d payload line%s]' % (nlines, '' if nlines == 1 else 's')
+
+    def gen(repo):
+        r = scn.Run(repo, ARM, '__str__', label)
+        ex, st = r.ex, r.st
+        B = E.BYTES
+        PAY = z3.Const('BINARY_EXPORT', B)
+        MAGIC, HK, HV = z3.Const('BLOCK_LABEL', B), z3.Const('HEADER_KEY', B), z3.Const('HEADER_VALUE', B)
+        CRC = z3.Int('crc24_of_payload')
+        st.pc += [CRC >= 0, CRC < 2 ** 24]
+        b64len = 4 * ((z3.Length(PAY) + 2) / 3)
+        st.pc += [b64len > 64 * (nlines - 1), b64len <= 64 * nlines]
+        L64 = z3.Length(z3.Function('BASE64', B, B)(PAY))
+        st.pc += [L64 == b64len, L64 > 64 * (nlines - 1), L64 <= 64 * nlines]
+        me = E.VObj('pgpy.pgp.PGPMessage', 'obj')
+        r.hook('pgpy.types.PGPObject', '__bytes__', scn.method_hook(lambda ex, st, o, a: [(st, E.VBytes(PAY))]))
+        r.hook('pgpy.pgp.PGPMessage', '__bytes__', scn.method_hook(lambda ex, st, o, a: [(st, E.VBytes(PAY))]))
+        r.hook('pgpy.pgp.PGPMessage', 'magic', scn.const(E.VStr(z=MAGIC)))
+        r.set('obj', 'ascii_headers', E.VDict([(E.VStr(z=HK), E.VStr(z=HV))]))
+
+        def crc(ex, st, o, a):
+            st.ghost['crc_arg'] = a[0]
+            return [(st, E.VInt(CRC))]
+        r.hook(ARM, 'crc24', scn.method_hook(crc))
+        B64 = z3.Function('BASE64', B, B)
+        for pi, (s, v) in enumerate(r.call(me, [])):
+            if isinstance(v, E.Raise):
+                r.oblige(s, 'safety(%s)/p%d' % (v.exc.split(':')[0], pi), z3.BoolVal(False), v.where)
+                continue
+            ok = isinstance(v, E.VStr) and v.z is not None
+            r.oblige(s, 'is-text/p%d' % pi, z3.BoolVal(ok))
+            if not ok:
+                continue
+            lit = lambda t: ex.strseq(E.VStr(s=t))
+            p64 = B64(PAY)
+            lines = []
+            for i in range(nlines):
+                lines.append(z3.Extract(p64, 64 * i, z3.If(z3.Length(p64) - 64 * i < 64, z3.Length(p64) - 64 * i, 64)))
+            body = lines[0]
+            for l in lines[1:]:
+                body = z3.Concat(body, lit('\n'), l)
+            crc3 = scn.be(CRC, 3)
+            spec = z3.Concat(lit('-----BEGIN PGP '), MAGIC, lit('-----\n'), HK, lit(': '), HV, lit('\n'), lit('\n'), body, lit('\n='),
+                             B64(crc3), lit('\n-----END PGP '), MAGIC, lit('-----\n'))
+            r.oblige(s, 'rfc4880-6.2-layout/p%d' % pi, v.z == spec)
+            ca = s.ghost.get('crc_arg')
+            r.oblige(s, 'crc-over-the-binary-export/p%d' % pi, z3.And(z3.BoolVal(ca is not None), ex.seq(ca, s) == PAY if ca is not None else z3.BoolVal(False)))
+            for i, l in enumerate(lines):
+                r.oblige(s, 'payload-line-%d-at-most-64-characters/p%d' % (i, pi), z3.And(z3.Length(l) <= 64, z3.Length(l) >= 1))
+            allb = lines[0] if len(lines) == 1 else z3.Concat(*lines)
+            r.oblige(s, 'payload-lines-concatenate-to-the-base64-text/p%d' % pi, allb == p64)
+        return r.result()
+    return Scenario(label, ARM + '.__str__', gen, props=('C10',))
+
+
+def scenarios():
+    return [crc24(), armor_writer(1), armor_writer(2)]
